@@ -93,6 +93,37 @@ mod verif_kani_negate {
     fn negate_3_ranges() {
         run::<3>();
     }
+    /// small-domain variant: two ranges, vocabulary <= 40 (keeps the SAT problem small; overlapping / nested / adjacent
+    /// / unsorted pairs are all inside the domain)
+    #[kani::proof]
+    #[kani::unwind(6)]
+    fn negate_2_ranges_small() {
+        let vocab: usize = kani::any();
+        kani::assume(vocab >= 1 && vocab <= 40);
+        let a: u32 = kani::any();
+        let b: u32 = kani::any();
+        let c: u32 = kani::any();
+        let d: u32 = kani::any();
+        kani::assume(a <= 41 && b <= 41 && c <= 41 && d <= 41);
+        let trie = ShimTrie { vocab };
+        let legal = a <= b && c <= d && (b as usize) < vocab && (d as usize) < vocab;
+        let r = negate(&trie, vec![a..=b, c..=d]);
+        kani::cover!(r.is_ok() && c > a && c <= b && d > b);
+        assert!(r.is_ok() == legal);
+        if let Ok(neg) = r {
+            let t: u32 = kani::any();
+            kani::assume((t as usize) < vocab);
+            let in_input = (a <= t && t <= b) || (c <= t && t <= d);
+            let mut in_neg = false;
+            let mut j = 0;
+            while j < neg.len() {
+                assert!(neg[j].start() <= neg[j].end() && (*neg[j].end() as usize) < vocab);
+                in_neg = in_neg || neg[j].contains(&t);
+                j += 1;
+            }
+            assert!(in_neg == !in_input);
+        }
+    }
 
     // vacuity guard (must FAIL): claims the complement is always a single range
     #[kani::proof]
